@@ -316,6 +316,8 @@ fn run_views_inner<T: Elem>(beh: &[Value]) -> Option<Value> {
     let mut orig: *const T = core::ptr::null();
     let mut slot: Option<usize> = None;
     let mut frees_before = 0usize;
+    let mut scratch: Option<(*mut u8, usize, usize)> = None;
+    let mut scratch_bad: Option<Value> = None;
     for (i, ev) in beh.iter().enumerate() {
         let op = ev["op"].as_str().unwrap();
         let exp_ptr = ev["ptr"].as_str().unwrap();
@@ -371,6 +373,50 @@ fn run_views_inner<T: Elem>(beh: &[Value]) -> Option<Value> {
                             _ => return Err(format!("kind {k}")),
                         }
                         Ok(Some(see_rust(&held, orig)))
+                    }
+                    "ForeignMake" => {
+                        // foreign code builds an owned view in memory from diplomat_alloc (the way JS and C pass a Box<[T]>)
+                        let k = ev["k"].as_str().unwrap();
+                        let n = ev["n"].as_u64().unwrap() as usize;
+                        if k == "ownstr" {
+                            let p = diplomat_runtime::diplomat_alloc(n, 1);
+                            for j in 0..n { *p.add(j) = (65 + j) as u8; }
+                            orig = p as *const T;
+                            BASE = (p as usize, n, 1);
+                            slot = Some(track::watch(p));
+                            let r = RawView::<u8> { ptr: p, len: n };
+                            held = Held::FfiOwnStr(core::mem::transmute_copy::<RawView<u8>, DiplomatOwnedUTF8StrSlice>(&r));
+                        } else {
+                            let p = diplomat_runtime::diplomat_alloc(n * core::mem::size_of::<T>(), core::mem::align_of::<T>()) as *mut T;
+                            for j in 0..n { *p.add(j) = T::mk(65 + j as u64); }
+                            orig = p;
+                            BASE = (p as usize, n, core::mem::size_of::<T>());
+                            slot = Some(track::watch(p));
+                            let r = RawView::<T> { ptr: p, len: n };
+                            held = Held::FfiOwn(core::mem::transmute_copy::<RawView<T>, DiplomatOwnedSlice<T>>(&r));
+                        }
+                        Ok(Some(see_ffi(&held, orig)))
+                    }
+                    "ForeignAlloc" => {
+                        let n = ev["n"].as_u64().unwrap() as usize;
+                        let (size, align) = (n * core::mem::size_of::<T>(), core::mem::align_of::<T>());
+                        let p = diplomat_runtime::diplomat_alloc(size, align) as *mut T;
+                        if p.is_null() || (p as usize) % align != 0 {
+                            return Ok(Some(Seen { ptr: "other", len: 0, contents: vec![] })); // reported as a state difference
+                        }
+                        for j in 0..n { *p.add(j) = T::mk(7 + j as u64); }
+                        for j in 0..n { if (*p.add(j)).get() != 7 + j as u64 { return Ok(Some(Seen { ptr: "other", len: n, contents: vec![] })); } }
+                        scratch = Some((p as *mut u8, size, align));
+                        Ok(Some(Seen { ptr: "null", len: 0, contents: vec![] }))
+                    }
+                    "ForeignFree" => {
+                        let (p, size, align) = scratch.take().ok_or("ForeignFree without a buffer")?;
+                        let ((), unknown, badlay) = track::strict(|| diplomat_runtime::diplomat_free(p, size, align));
+                        if unknown > 0 || badlay > 0 {
+                            scratch_bad = Some(json!({"what": "diplomat_free releases something diplomat_alloc did not hand out (invalid free)",
+                                "size": size, "align": align, "never_allocated": unknown, "other_layout": badlay}));
+                        }
+                        Ok(Some(Seen { ptr: "null", len: 0, contents: vec![] }))
                     }
                     "ForeignNull" => {
                         let k = ev["k"].as_str().unwrap();
@@ -452,6 +498,11 @@ fn run_views_inner<T: Elem>(beh: &[Value]) -> Option<Value> {
             Err(p) => return Some(json!({"step": i, "op": op, "what": "panic", "panic": p})),
             Ok(Err(e)) => panic!("harness error: {e}"),
             Ok(Ok(Some(seen))) => {
+                if let Some(mut m) = scratch_bad.take() {
+                    m["step"] = json!(i);
+                    m["op"] = json!(op);
+                    return Some(m);
+                }
                 if seen.ptr != exp_ptr || seen.len != exp_len || seen.contents != exp_contents {
                     return Some(json!({"step": i, "op": op, "what": "view state differs",
                         "expected": {"ptr": exp_ptr, "len": exp_len, "contents": exp_contents},
@@ -518,8 +569,9 @@ pub fn views(args: &[String]) -> i32 {
     macro_rules! each { ($($t:ty),*) => { $(
         for b in &behs {
             let beh = b.as_array().unwrap();
-            let k = beh[0]["k"].as_str().unwrap();
-            if (k == "str" || k == "ownstr") && <$t as Elem>::NAME != "u8" { continue; }
+            // string kinds exist for bytes only
+            let strs = beh.iter().any(|e| matches!(e["k"].as_str(), Some("str") | Some("ownstr")));
+            if strs && <$t as Elem>::NAME != "u8" { continue; }
             n += 1;
             if let Some(mut m) = run_views_one::<$t>(beh) {
                 bad += 1;
